@@ -4,7 +4,7 @@ from ..rules import r14, r1, r3, r5, r8, r12, r12b
 
 
 def run(ctx: Ctx) -> list[Ob]:
-    return r14.membership_in_mapping(ctx) + r5.r5g(ctx) + r3.r3l(ctx) + r3.r3m(ctx) + r3.r3c(ctx) + r3.r3d(ctx) + r3.r3e(ctx) + r3.r3f(ctx) + r12.r12a_outputs(ctx) + r8.run_guards(ctx, r8.GUARDS_MATCHERS) + r3.r3g(ctx) + r1.r1d_sweep(ctx) + r12b.layer_rewrites(ctx) + r12b.param_rewrites(ctx) + r12b.shatter_rewrites(ctx) + r3.r3h(ctx) + r3.r3i(ctx) + r3.r3j(ctx) + r14.view_of_noncontiguous(ctx) + r14.zip_of_orderings(ctx) + r14.selection_bookkeeping(ctx) + r12b.pattern_entry_subclasses(ctx)
+    return r14.split_graphs_keep_sharing(ctx) + r14.membership_in_mapping(ctx) + r5.r5g(ctx) + r3.r3l(ctx) + r3.r3m(ctx) + r3.r3c(ctx) + r3.r3d(ctx) + r3.r3e(ctx) + r3.r3f(ctx) + r12.r12a_outputs(ctx) + r8.run_guards(ctx, r8.GUARDS_MATCHERS) + r3.r3g(ctx) + r1.r1d_sweep(ctx) + r12b.layer_rewrites(ctx) + r12b.param_rewrites(ctx) + r12b.shatter_rewrites(ctx) + r3.r3h(ctx) + r3.r3i(ctx) + r3.r3j(ctx) + r14.view_of_noncontiguous(ctx) + r14.zip_of_orderings(ctx) + r14.selection_bookkeeping(ctx) + r12b.pattern_entry_subclasses(ctx)
 
 
 SPEC = PropSpec(
@@ -30,11 +30,12 @@ SPEC = PropSpec(
         " R3l: the offsets by which the address-book builders address fold j of input module k (offset[k] + j) are the exclusive prefix sums of the fold counts -- an accumulate / cumsum over num_folds with a leading 0, or a running variable updated additively; a running offset that is overwritten instead of accumulated is right for one or two input modules and reads another operand's folds from the third on. R3m: no order-changing operation (sorted, reversed, set, .sort()) is applied to a fold index in the modules that build and use address books: entry i of a fold index describes fold i, and the consumers read folds by position."
         ' R5g: every parameter operator whose forward contracts two or more parameter tensors with a dtype-strict operation (matmul, einsum, tensordot, @) casts them to a common dtype first (promote_types / result_type / .to): the parameter graph may mix real and complex tensors (a real permutation matrix and a conjugated complex weight), which the un-optimized graph evaluates with promoting operations, so a strict contraction introduced by an optimizer rewrite would make the circuit raise under optimize=True only.'
         ' R14t: a membership test `x in mapping` whose left side has, by the annotations of the function, the value type of the annotated dict and not its key type is always False (a match looked up among the modules): the selection bookkeeping it guards is skipped.'
+        " R14v: an optimisation rewrite that gives two or more sub-graphs of one parameter graph to different layers accounts for the nodes they share (pointers / an intersection test): every layer's graph is folded on its own, so a tensor node sitting in two of them is allocated twice under fold + optimize (known finding D37: the tensor-dot rewrite of a Kronecker weight with a tied factor)."
     ),
     not_decided=(
         "that each optimisation rewrite is an algebraic identity (R12b rewrite carry not built); the other match guards (class, "
         "fan-in, fan-out, config patterns); run-time address-book index arithmetic."
     ),
     run=run,
-    floors={"R5g": 2, "R3l": 2, "R3m": 8, "R3j": 40, "R12c": 8, "R3i": 4, "R3h": 1, "R3c": 35, "R3d": 10, "R3e": 5, "R3f": 150, "R8": 12, "R3g": 2, "R1d": 5, "R12b": 30},
+    floors={"R14v": 1, "R5g": 2, "R3l": 2, "R3m": 8, "R3j": 40, "R12c": 8, "R3i": 4, "R3h": 1, "R3c": 35, "R3d": 10, "R3e": 5, "R3f": 150, "R8": 12, "R3g": 2, "R1d": 5, "R12b": 30},
 )
